@@ -16,7 +16,10 @@ def amounts(g):
     return [(0, 0, 0, 1), (0, 0, 0, -1), (0, 0, 1, 0), (0, 0, -1, 0), (0, 0, g, 0), (0, 0, -g, 0),
             (0, 0, 3599, 999999), (0, -59, -59, -999999), (23, 59, 59, 999999), (-24, 0, 0, 1),
             (2, -60, -3600, 0), (1, -120, 3601, -1000001), (0, 0, 86399, 0), (-25, 61, -61, 1000000),
-            (48, 0, -g, 5), (0, 1440, 0, 0)]
+            (48, 0, -g, 5), (0, 1440, 0, 0),
+            # mixed signs whose NUMBERS cancel although the amounts do not (1 h - 1 min), and amounts that do cancel
+            (1, -1, 0, 0), (-3, 0, 2, 1), (2, -1, -1, 0), (0, 5, -5, 0), (0, 0, 1, -1), (1, 0, 0, -1), (0, 0, -7, 7),
+            (1, -60, 0, 0), (0, 1, -60, 0), (0, 0, 1, -1000000)]
 
 
 def drive(ctx):
